@@ -271,7 +271,7 @@ def gen_tsamples(rng, dt, tmax_hint):
 
 def gen_script(rng, option, space_kind=None, dyadic=None, policy=None, static=False, degenerate=False, sub_molecule=False,
                units=True, max_steps=120, mode=None, zero_tmax=None, quantity=None, many_reactions=False, huge_ratio=False, nearmiss=False,
-               refused_edits=False, tsample_after=False, chem_file=False, refuse_space=False, default_tmax=False):
+               refused_edits=False, tsample_after=False, chem_file=False, refuse_space=False, default_tmax=False, exact_tie=False):
     """(script description for life_child, info) — a VALID script.  `units`: True (half of the scripts state their time
     quantities in their own units and use a units system with another time unit and a quantity unit that may differ from
     molecule), False, or "force"; `quantity`: force that quantity unit.
@@ -283,6 +283,11 @@ def gen_script(rng, option, space_kind=None, dyadic=None, policy=None, static=Fa
         dt = 2.0 ** (-rng.randint(2, 7))
     else:
         dt = rng.choice([0.01, 0.003, 0.07, 0.0123, 0.1])
+    if exact_tie:
+        # the clock lands EXACTLY on t_max (dyadic dt, t_max = n dt): that step is not beyond t_max, one more follows
+        dyadic, units, zero_tmax = True, False, False
+        dt = rng.choice([0.125, 0.5, 1.0, 0.25])
+        max_steps = min(max_steps, 12)
     if nearmiss:
         # requested times i*dt (products) against a clock that ACCUMULATES dt: some steps miss their request by one ulp
         # from below (0.1 eight times is 0.7999999999999999 < 0.8), so the covering record is the NEXT step
@@ -303,6 +308,8 @@ def gen_script(rng, option, space_kind=None, dyadic=None, policy=None, static=Fa
     r_zero = rng.random() < 0.06
     zero_tmax = r_zero if zero_tmax is None else zero_tmax
     ts, style = gen_tsamples(rng, dt, tmax)
+    if exact_tie:
+        tmax = dt * nsteps
     if nearmiss:
         nsteps = max(nsteps, 25)
         tmax = dt * nsteps + dt * 0.5
@@ -313,6 +320,8 @@ def gen_script(rng, option, space_kind=None, dyadic=None, policy=None, static=Fa
     explicit_tmax = rng.random() < 0.6 or not ts or option == "gillespie" or zero_tmax
     if (default_tmax or tsample_after) and ts and not zero_tmax:
         explicit_tmax = False
+    if exact_tie:
+        explicit_tmax = True
     if explicit_tmax:
         kw["t_max"] = tmax
     vary_units = bool(units) and (units == "force" or rng.random() < 0.5)
@@ -413,6 +422,41 @@ def init_failures(x):
     if rec.get("rc", 0) != 0 and "raised" not in x:
         bad.append(("native-init-rc", "%s returned error code %d for a script the Python setters accepted, and setup() went on (the object is "
                     "used without having been initialised)" % (rec["fn"], rec["rc"]), rec["rc"], 0))
+    return bad
+
+
+def refetch_failures(calls, results):
+    """returned objects are the caller's: after the caller modified the trajectory object it was given (mutate_out), a
+    further fetch from the same engine is what it would have been — same script, system, units, shape as the deep snapshot
+    of the fetch before the modification (the data may have grown with further steps).  Returns [(index, key, what, impl, expected)]"""
+    bad = []
+    last = {}        # obj -> (index, ret) of the last fetch
+    dirty = {}       # obj -> what was modified since
+    for i, (c, x) in enumerate(zip(calls, results)):
+        k = c["call"]
+        o = c.get("obj", 0)
+        if k == "setup":
+            last.pop(o, None); dirty.pop(o, None)
+        elif k == "mutate_out":
+            dirty[o] = c.get("what")
+        elif k == "get_output" and isinstance(x.get("ret"), dict):
+            ret = x["ret"]
+            if o in last and o in dirty:
+                prev = last[o][1]
+                for f in ("nspecies", "ncells"):
+                    if ret.get(f) != prev.get(f):
+                        bad.append((i, "output-depends-on-returned-object", "after the caller modified the trajectory it was given (%s), the next get_output() has %s = %r instead of %r"
+                                    % (dirty[o], f, ret.get(f), prev.get(f)), ret.get(f), prev.get(f)))
+                        break
+                else:
+                    if ret.get("snap") != prev.get("snap"):
+                        diff = [kk for kk in (prev.get("snap") or {}) if (ret.get("snap") or {}).get(kk) != prev["snap"].get(kk)]
+                        bad.append((i, "output-depends-on-returned-object", "after the caller modified the trajectory it was given (%s), the next get_output() differs in %s"
+                                    % (dirty[o], diff[:3]), {kk: (ret.get("snap") or {}).get(kk) for kk in diff[:2]}, {kk: prev["snap"].get(kk) for kk in diff[:2]}))
+                    elif ret.get("nsamples") == prev.get("nsamples") and ret.get("hash") != prev.get("hash"):
+                        bad.append((i, "output-depends-on-returned-object", "after the caller modified the trajectory it was given (%s), the same fetch gives other data" % dirty[o],
+                                    ret.get("hash"), prev.get("hash")))
+            last[o] = (i, ret)
     return bad
 
 
